@@ -813,6 +813,16 @@ func (fr *Frame) atCallAsserts(in ssa.Instruction, cc *ssa.CallCommon, args []*V
 			env.bound[fmt.Sprintf("$%d", i)] = a
 		}
 		if ac.Kind == "set" {
+			// ghost assignment performed right before the call
+			gv, ok := vc.P.CS.GhostVars[ac.Let]
+			if !ok {
+				vc.errorf("at call %s set: %s is not a ghost variable", ac.Callee, ac.Let)
+				continue
+			}
+			v := env.eval(ac.Cl.E)
+			nh := fr.cur.Derive()
+			nh.Set(vc.ghostVarHeap(gv), vc.term(v))
+			fr.cur = nh
 			continue
 		}
 		if ac.Kind == "let" {
